@@ -423,6 +423,90 @@ fn mismatch(c: &MismatchCase, info: &mut CaseInfo) -> Result<(), Fail> {
     Ok(())
 }
 
+
+// ---------------------------------------------------------------------------------------------
+// filters beyond 2^32 bits (documented maximum about 2^37): positions and counts need 64-bit arithmetic
+
+#[derive(Debug, Clone, Serialize, Deserialize)]
+pub struct HugeCase {
+    /// capacity = 2^32 + 64 * extra_words (..= 2^34)
+    pub extra_words: u32,
+    pub num_hashes: u16,
+    pub seed: u64,
+    pub items: Vec<u64>,
+    pub pseed: u64,
+}
+
+fn huge_case() -> impl Strategy<Value = HugeCase> {
+    (prop_oneof![Just(1u32), Just(1 << 26), 1u32..=(3 << 26)], 1u16..=6, any::<u64>(), proptest::collection::vec(any::<u64>(), 1..40), any::<u64>())
+        .prop_map(|(extra_words, num_hashes, seed, items, pseed)| HugeCase { extra_words, num_hashes, seed, items, pseed })
+}
+
+fn huge(c: &HugeCase, info: &mut CaseInfo) -> Result<(), Fail> {
+    let bits = (1u64 << 32) + 64 * c.extra_words as u64;
+    // the bit array is allocated zeroed (lazily by the OS): only the touched pages become resident
+    let mut f = BloomFilterBuilder::with_size(bits, c.num_hashes).seed(c.seed).build();
+    let cap = f.capacity() as u64;
+    ensure!(cap == bits, "C09.capacity", "with_size({bits}): capacity {cap}");
+    let mut model: BTreeSet<u64> = BTreeSet::new();
+    let mut high = false;
+    for x in &c.items {
+        f.insert(*x);
+        for p in positions(&x.to_le_bytes(), c.seed, c.num_hashes, cap) {
+            high |= p >= 1 << 32;
+            model.insert(p);
+        }
+    }
+    let ctx = format!("filter of 2^32 + {} bits, {} hashes, {} items", 64 * c.extra_words as u64, c.num_hashes, c.items.len());
+    ensure!(f.bits_used() == model.len() as u64, "C09.bits_used", "{ctx}: bits_used {} but the reference positions are {} distinct bits", f.bits_used(), model.len());
+    for x in &c.items {
+        ensure!(f.contains(x), "C09.false_negative", "{ctx}: inserted item {x} not contained");
+    }
+    let mut sm = SplitMix(c.pseed);
+    for _ in 0..2000 {
+        let y = sm.next();
+        let want = positions(&y.to_le_bytes(), c.seed, c.num_hashes, cap).iter().all(|p| model.contains(p));
+        ensure!(f.contains(&y) == want, "C09.contains", "{ctx}: contains({y}) = {} but the reference positions say {want}", f.contains(&y));
+    }
+    // once per run the whole bit array (512 MiB and more) is read back through serialize() and compared with the
+    // model bit by bit: a position folded to 32 bits is consistent between insert and contains, only the array shows it
+    static ARRAY_DONE: std::sync::atomic::AtomicBool = std::sync::atomic::AtomicBool::new(false);
+    if high && !ARRAY_DONE.swap(true, std::sync::atomic::Ordering::SeqCst) {
+        let img = f.serialize();
+        let mut got: BTreeSet<u64> = BTreeSet::new();
+        for (w, chunk) in img[32..].chunks_exact(8).enumerate() {
+            let mut word = u64::from_le_bytes(chunk.try_into().unwrap());
+            while word != 0 {
+                let b = word.trailing_zeros() as u64;
+                got.insert(w as u64 * 64 + b);
+                word &= word - 1;
+            }
+        }
+        drop(img);
+        ensure!(got == model, "C09.bits", "{ctx}: the bit array holds {} set bits {:?}.., the reference positions are {:?}..", got.len(), got.iter().take(4).collect::<Vec<_>>(), model.iter().take(4).collect::<Vec<_>>());
+        info.label("whole_array_compared");
+    }
+    info.label(if high { "position>=2^32" } else { "positions<2^32" });
+    info.nontrivial = high;
+    // set-operation recounts beyond 2^32 set bits: thorough tier only (touches 1 GiB)
+    static HEAVY_DONE: std::sync::atomic::AtomicBool = std::sync::atomic::AtomicBool::new(false);
+    if std::env::var("VERIF_TIER_HINT").map(|t| t == "thorough").unwrap_or(false) && !HEAVY_DONE.swap(true, std::sync::atomic::Ordering::SeqCst) {
+        let n = (1u64 << 32) + 64;
+        let mut a = BloomFilterBuilder::with_size(n, 1).seed(c.seed).build();
+        a.invert();
+        ensure!(a.bits_used() == n, "C09.bits_used", "inverted empty filter of 2^32 + 64 bits: bits_used {}", a.bits_used());
+        let b = BloomFilterBuilder::with_size(n, 1).seed(c.seed).build();
+        let mut u = a.clone();
+        u.union(&b);
+        ensure!(u.bits_used() == n, "C09.bits_used", "union of a full and an empty filter of 2^32 + 64 bits: bits_used {} expected {n}", u.bits_used());
+        let mut i = a.clone();
+        i.intersect(&a);
+        ensure!(i.bits_used() == n, "C09.bits_used", "intersection of a full filter of 2^32 + 64 bits with itself: bits_used {} expected {n}", i.bits_used());
+        info.label("heavy_set_operations");
+    }
+    Ok(())
+}
+
 pub fn def() -> PropDef {
     PropDef {
         id: "C09",
@@ -450,6 +534,16 @@ pub fn def() -> PropDef {
                 limit_factor: 1,
                 strategy: mismatch_case,
                 check: mismatch,
+            }),
+            Box::new(PropSub {
+                name: "filters_beyond_2^32_bits",
+                rule: "filters of 2^32 + 64 .. 2^34 bits (lazily zeroed memory, only touched pages resident), 1..6 hashes, up to 40 items: bits_used == number of distinct reference positions, inserted items contained, 2000 fresh probes answer exactly as the reference positions say; once per run the whole bit array is read back through serialize() and compared bit by bit; thorough tier: once per run invert / union / intersect on filters of 2^32 + 64 bits, whose counts exceed 2^32. non-trivial = some reference position >= 2^32",
+                cases_quick: 40,
+                cases_thorough: 400,
+                max_shrink_iters: 4,
+                limit_factor: 2,
+                strategy: huge_case,
+                check: huge,
             }),
             Box::new(FnSub {
                 name: "fpp",
